@@ -1168,6 +1168,10 @@ class NewCommand(Macro):
             params.append(tex.readArgument('[]', default=self.opt,
                                            parentNode=self,
                                            name='#%s' % len(params)))
+            # LaTeX reads [...] as a delimited parameter: the outer braces
+            # of \foo[{x}] are removed
+            if isinstance(params[-1], list):
+                params[-1] = Definition.stripBraces(params[-1])
 
         # Get mandatory arguments
         for i in range(nargs):
@@ -1191,7 +1195,16 @@ class Definition(Macro):
         if not self.args: return self.definition
 
         name = macroName(self)
-        argIter = iter(self.args)
+        args = list(self.args)
+        # A parameter text that ends in `#' was written \def\foo...#{...}: the
+        # last parameter is delimited by the left brace that follows the
+        # call, and that brace stays in the input
+        hashbrace = False
+        if args[-1].catcode == Token.CC_PARAMETER and \
+           (len(args) < 2 or args[-2].catcode != Token.CC_PARAMETER):
+            hashbrace = True
+            args.pop()
+        argIter = iter(args)
         inparam = False
         params = [None]
         for a in argIter:
@@ -1213,17 +1226,6 @@ class Definition(Macro):
                     elif a.catcode == Token.CC_PARAMETER:
                         continue
 
-                    # Handle #{ case here
-                    elif a.catcode == Token.CC_BGROUP:
-                        param = []
-                        for t in tex.itertokens():
-                            if t.catcode == Token.CC_BGROUP:
-                                tex.pushToken(t)
-                            else:
-                                param.append(t)
-                        inparam = False
-                        params.append(param)
-
                     else:
                         raise ValueError('Invalid arg string: %s' % ''.join(self.args))
                     break
@@ -1231,12 +1233,17 @@ class Definition(Macro):
             # In a parameter, so get everything up to a token that matches `a`
             elif inparam:
                 param = []
+                level = 0
                 for t in tex.itertokens():
-                    if t == a:
+                    if level == 0 and t == a:
                         break
+                    if t.catcode == Token.CC_BGROUP:
+                        level += 1
+                    elif t.catcode == Token.CC_EGROUP:
+                        level -= 1
                     param.append(t)
                 inparam = False
-                params.append(param)
+                params.append(self.stripBraces(param))
 
             # Not in a parameter, just make sure the token matches
             else:
@@ -1246,13 +1253,43 @@ class Definition(Macro):
                     log.info('Arguments of "%s" don\'t match definition. Got "%s" but was expecting "%s" (%s).' % (name, t, a, ''.join(self.args)))
                     break
 
-        if inparam:
+        if inparam and hashbrace:
+            param = []
+            for t in tex.itertokens():
+                if t.catcode == Token.CC_BGROUP:
+                    tex.pushToken(t)
+                    break
+                param.append(t)
+            params.append(param)
+
+        elif inparam:
             params.append(tex.readArgument(parentNode=self,
                                            name='#%s' % len(params)))
 
         deflog.debug2('expanding %s %s', self.definition, params)
 
         return expandDef(self.definition, params)
+
+    @staticmethod
+    def stripBraces(param):
+        """
+        Remove the outer braces of a delimited argument that is one group
+
+        TeX does this for `\\def\\a#1.{...}\\a{x}.`: #1 is `x`, not `{x}`.
+
+        """
+        if len(param) < 2 or param[0].catcode != Token.CC_BGROUP or \
+           param[-1].catcode != Token.CC_EGROUP:
+            return param
+        level = 0
+        for i, t in enumerate(param):
+            if t.catcode == Token.CC_BGROUP:
+                level += 1
+            elif t.catcode == Token.CC_EGROUP:
+                level -= 1
+                if level == 0 and i < len(param) - 1:
+                    return param
+        return param[1:-1]
 
 
 class number(int):
